@@ -236,6 +236,10 @@ def run(repo: Repo, tier: str) -> Report:
             okc = o.get("drop_axis") == "[1, 2]" and o.get("new_axis") == "[1, 2]" and o.get("chunks") == "chunks"
             rep.ob("R-BIND", AFILE, s.where(), "dask path drops y/x and creates (zones, stat) axes", okc, f"options = {o}", "map_blocks options")
     m = repo.method("hdc.algo.accessors", "ZonalStatistics", "mean")
+    from ..rules import r_token
+    for s in sites:
+        if s.mode == "map_blocks":
+            r_token(rep, repo, m, s, s.where())
     src = {norm_stmt(st): st for st in ast.walk(m) if isinstance(st, ast.Assign)}
     rep.ob("R-FORMULA", AFILE, "ZonalStatistics.mean", "NaN pixels are replaced by nodata before the kernel",
            "xx = xx.where(xx.notnull(), xx.nodata)" in src, "", "xx = xx.where(xx.notnull(), xx.nodata)")
